@@ -599,6 +599,46 @@ def fresh_nn():
     return z3.Bool('nn_')
 
 
-CONTRACTS = COMMON_CONTRACTS + [ListOut(O + 'list_coercer.py::list_coercer_sequentially', False), ListOut(O + 'list_coercer.py::list_coercer_concurrently', True), IsCoercible(), MultipleExceptionBool(), MultipleExceptionAdd(), ExtractExceptions(), LocatedError(), AddError(),
+class GetOutputCoercer(Contract):
+    """get_output_coercer(T, concurrently): the closure denotes exactly CompleteValue for T -- every list layer is bound to ITS
+    item type (the declared wrapped type) and the requested list flavour, non-null layers wrap their inner type"""
+    key = O + 'compute.py::get_output_coercer'
+    property_ids = ('C01', 'C02', 'C03', 'C08')
+    params = ['graphql_type', 'concurrently']
+
+    def args(self, en, names):
+        self.A = super().args(en, names)
+        return self.A
+
+    def cc(self):
+        return py_truthy(self.A['concurrently'])
+
+    def pre(self, A, st):
+        return [('type_wf', SO.OTyWf(A['graphql_type'])), ('flag', z3.Or(V.is_Bool(A['concurrently']), A['concurrently'] == V.None_))]
+
+    def _inv0(self, en, st, k, st0):
+        ws = V.items(en.read(st.env['wrapper_coercers'], st))
+        inner = st.env['inner_type']
+        return {'cursor_wf': SO.OTyWf(inner), 'wrappers_ok': SO.OWsOk(ws, self.cc()),
+                'rebuild': SO.ORebR(ws, SO.OBehT(inner, self.cc())) == SO.OBehT(self.A['graphql_type'], self.cc())}
+
+    def _inv1(self, en, st, k, st0):
+        ws = V.items(en.read(st.env['wrapper_coercers'], st))
+        c = en.read(st.env['coercer'], st)
+        n = length(ws)
+        return {'closure': V.is_Fun(c), 'wrappers_ok': SO.OWsOk(take(ws, n - k), self.cc()),
+                'rebuild': SO.ORebR(take(ws, n - k), denote(c)) == SO.OBehT(self.A['graphql_type'], self.cc())}
+
+    @property
+    def loops(self):
+        return {0: LoopContract(self._inv0), 1: LoopContract(self._inv1)}
+
+    def post(self, A, st0, out):
+        if out.kind == 'raise':
+            return never_raises(out)
+        return [('is_closure', V.is_Fun(out.value)), ('denotes_type', denote(out.value) == SO.OBehT(A['graphql_type'], self.cc()))]
+
+
+CONTRACTS = COMMON_CONTRACTS + [GetOutputCoercer(), ListOut(O + 'list_coercer.py::list_coercer_sequentially', False), ListOut(O + 'list_coercer.py::list_coercer_concurrently', True), IsCoercible(), MultipleExceptionBool(), MultipleExceptionAdd(), ExtractExceptions(), LocatedError(), AddError(),
                                 HandleFieldError(), CompleteValueCatchingError(), NonNullOut(), NullWrapperOut(), ScalarOut(), DirectivesOut()]
 LEMMAS = [Lemma('pointwise:' + imp.name, *imp.pointwise()) for imp in ListImplication.registry]
